@@ -35,7 +35,7 @@ var c09IdAlpha = []string{"a", "i", "n", "b", "y", "o", "r", "d", "A", "_", "$",
 var canonNumber = regexp.MustCompile(`^(0|[1-9][0-9]*)(\.[0-9]*)?([eE][+-]?[0-9]+)?$`)
 
 func c09Main(r *run.Runner) {
-	r.Rule = "every byte string over the stated alphabets up to the stated length is scanned by parser.Scan and by the reference tokenizer; " +
+	r.Rule = "every byte string over the stated alphabets up to the stated length (plus boundary literals, unusual runes in 20 lexical contexts, sequences of tricky lexemes and the wide families as sources) is scanned by parser.Scan and by the reference tokenizer; " +
 		"a case is non-trivial when it yields at least one token; cases are distinct by construction (each string is enumerated once)"
 	r.Assume = []string{"reference tokenizer reftok encodes the token definitions of the property statement",
 		"numeric accessors are only compared where the value is representable (uint64 range / finite normal float64)"}
